@@ -362,7 +362,7 @@ func (b *Buffer) fromDepth(depth int, args ...goja.Value) *goja.Object {
 				for i := 0; i < int(length); i++ {
 					item := o.Get(strconv.Itoa(i))
 					if item != nil {
-						a[i] = byte(item.ToInteger())
+						a[i] = toUint8(item)
 					}
 				}
 				return b.fromBytes(a)
@@ -370,6 +370,20 @@ func (b *Buffer) fromDepth(depth int, args ...goja.Value) *goja.Object {
 		}
 	}
 	panic(errors.NewTypeError(b.r, errors.ErrCodeInvalidArgType, "The first argument must be of type string or an instance of Buffer, ArrayBuffer, or Array or an Array-like Object. Received %s", arg))
+}
+
+// toUint8 converts like the ToUint8 operation of ECMAScript: the number truncated towards zero, modulo 256
+// (ToInteger saturates at the int64 limits, which is not the same for 2**63 and beyond); NaN and infinities give 0.
+func toUint8(v goja.Value) byte {
+	f := v.ToFloat()
+	if math.IsNaN(f) || math.IsInf(f, 0) {
+		return 0
+	}
+	m := math.Mod(math.Trunc(f), 256)
+	if m < 0 {
+		m += 256
+	}
+	return byte(m)
 }
 
 func (b *Buffer) from(call goja.FunctionCall) goja.Value {
